@@ -165,7 +165,7 @@ def main(tier, seed, replay=None):
     warnings.simplefilter("ignore")
     import pyshacl
     rep = F.Report(PROP, tier, seed)
-    ob = F.coq_build(["Props/C16.v"], translators=["t3"])
+    ob = F.coq_build(["Props/C16.v"], translators=["t3", "t4"])
     rng = F.rng_for(seed, PROP)
     big = tier == "thorough"
     known = {k.get("id") for k in F.load_known_findings(PROP)}
